@@ -543,7 +543,8 @@ class SFTPFile(BufferedFile):
                 offset += chunk_size
                 size -= chunk_size
 
-        self._start_prefetch(read_chunks, max_concurrent_prefetch_requests)
+        if len(read_chunks) > 0:
+            self._start_prefetch(read_chunks, max_concurrent_prefetch_requests)
         # now we can just devolve to a bunch of read()s :)
         for x in chunks:
             self.seek(x[0])
@@ -588,22 +589,30 @@ class SFTPFile(BufferedFile):
                 self._prefetch_extents[num] = (offset, length)
 
     def _async_response(self, t, msg, num):
+        data = None
         if t == CMD_STATUS:
             # save exception and re-raise it on next file operation
             try:
                 self.sftp._convert_status(msg)
+            except EOFError:
+                # the request started at or past the end of the file: there
+                # simply is no data for it
+                pass
             except Exception as e:
                 self._saved_exception = e
-            return
-        if t != CMD_DATA:
+        elif t != CMD_DATA:
             raise SFTPError("Expected data")
-        data = msg.get_string()
+        else:
+            data = msg.get_string()
         while True:
             with self._prefetch_lock:
                 # spin if in race with _prefetch_thread
                 if num in self._prefetch_extents:
+                    # the request is answered (with data or a status) and no
+                    # longer outstanding
                     offset, length = self._prefetch_extents[num]
-                    self._prefetch_data[offset] = data
+                    if data is not None:
+                        self._prefetch_data[offset] = data
                     del self._prefetch_extents[num]
                     if len(self._prefetch_extents) == 0:
                         self._prefetch_done = True
